@@ -573,7 +573,9 @@ class _Relatable(_LexiconElement):
         *args: str,
         end: Optional[T] = None
     ) -> Iterator[list[T]]:
-        start = {self}  # inferred synsets share one _id but hash differently
+        # inferred synsets share one _id but hash differently
+        start = {self}
+        ends = set() if end is None else {end}
         agenda: list[tuple[list[T], set[T]]] = [
             ([target], {self, target})
             for target in self.get_related(*args)
@@ -581,7 +583,7 @@ class _Relatable(_LexiconElement):
         ]
         while agenda:
             path, visited = agenda.pop()
-            if end is not None and path[-1] == end:
+            if path[-1] in ends:
                 yield path
             else:
                 related = [target for target in path[-1].get_related(*args)
